@@ -633,7 +633,127 @@ fn sigma_group<F: VF>(ctx: &mut Ctx) {
     }, CircuitConfig::standard_recursion_config());
 }
 
+// -------------------------------------------------------------------------------------------
+// end-to-end completeness under unusual configurations (concrete native facts)
+
+const E2E_FILES: &[&str] = &[
+    "plonky2/src/plonk/prover.rs::prove",
+    "plonky2/src/plonk/verifier.rs::verify",
+    "plonky2/src/plonk/circuit_builder.rs::CircuitBuilder::build",
+    "plonky2/src/fri/oracle.rs::PolynomialBatch::prove_openings",
+    "plonky2/src/fri/reduction_strategies.rs::FriReductionStrategy::reduction_arity_bits",
+];
+
+/// "Honest proofs verify and carry the right outputs under every admissible configuration":
+/// the prover pipeline cannot be executed symbolically, so this group runs the REAL
+/// build / prove / verify natively (GoldilocksField) on one small program under configurations
+/// the repository's tests never use, and compares the public outputs with direct evaluation.
+/// Concrete structure and values: evaluated facts, no quantifier over inputs.
+fn e2e_configs(ctx: &mut Ctx) {
+    use plonky2::plonk::config::{GenericConfig, KeccakGoldilocksConfig, PoseidonGoldilocksConfig};
+    use plonky2_field::goldilocks_field::GoldilocksField as G;
+    use std::sync::Arc;
+    fn run<C: GenericConfig<2, F = G> + 'static>(config: CircuitConfig, lookups: bool, seed: u64) -> (bool, bool, bool) {
+        let mut b = CircuitBuilder::<G, 2>::new(config);
+        let x = b.add_virtual_target();
+        let y = b.add_virtual_target();
+        let xy = b.mul(x, y);
+        let s = b.add(xy, x);
+        let e = b.exp_u64(s, 5);
+        let q = b.div(e, y);
+        let bits = b.split_le(x, 8);
+        let back = b.le_sum(bits.iter());
+        b.connect(back, x);
+        let zero = b_zero(&mut b);
+        let r = b.random_access(zero, vec![x, y, xy, s]);
+        let mut outs = vec![q, r, e];
+        if lookups {
+            let table: Vec<(u16, u16)> = (0..5u16).map(|i| (i, 3 * i + 1)).collect();
+            let lut = b.add_lookup_table_from_pairs(Arc::new(table));
+            let idx = b.constant(G::from_canonical_u64(3));
+            outs.push(b.add_lookup_from_index(idx, lut));
+        }
+        for o in &outs {
+            b.register_public_input(*o);
+        }
+        let data = b.build::<C>();
+        let (xv, yv) = (G::from_canonical_u64(5 + seed % 200), G::from_canonical_u64(0xdead_beef + seed));
+        let mut pw = PartialWitness::<G>::new();
+        pw.set_target(x, xv).unwrap();
+        pw.set_target(y, yv).unwrap();
+        let proof = match data.prove(pw) {
+            Ok(p) => p,
+            Err(_) => return (false, false, false),
+        };
+        let sv = xv * yv + xv;
+        let ev = sv.exp_u64(5);
+        let mut want = vec![ev / yv, xv, ev];
+        if lookups {
+            want.push(G::from_canonical_u64(10));
+        }
+        let outputs_ok = proof.public_inputs == want;
+        let verifies = data.verify(proof).is_ok();
+        (true, verifies, outputs_ok)
+    }
+    fn b_zero(b: &mut CircuitBuilder<plonky2_field::goldilocks_field::GoldilocksField, 2>) -> Target {
+        b.zero()
+    }
+    let base = CircuitConfig::standard_recursion_config();
+    let fri = |rate_bits: usize, cap_height: usize, strategy: FriReductionStrategy, queries: usize, pow: u32| FriConfig {
+        rate_bits,
+        cap_height,
+        proof_of_work_bits: pow,
+        reduction_strategy: strategy,
+        num_query_rounds: queries,
+    };
+    // rate_bits >= log2(max_quotient_degree_factor) = 3 is the prover's stated precondition
+    // ("Having constraints of degree higher than the rate is not supported yet"), so every case keeps it.
+    let mut cases: Vec<(String, CircuitConfig, bool, bool)> = vec![];
+    let mk = |name: &str, zk: bool, nch: usize, f: FriConfig| {
+        let mut c = base.clone();
+        c.zero_knowledge = zk;
+        c.num_challenges = nch;
+        c.security_bits = (f.num_query_rounds * f.rate_bits + f.proof_of_work_bits as usize).min(100);
+        c.fri_config = f;
+        (name.to_string(), c)
+    };
+    let add = |cases: &mut Vec<(String, CircuitConfig, bool, bool)>, nc: (String, CircuitConfig), lookups: bool, keccak: bool| cases.push((nc.0, nc.1, lookups, keccak));
+    add(&mut cases, mk("zk-on", true, 2, fri(3, 4, FriReductionStrategy::ConstantArityBits(4, 5), 28, 16)), false, false);
+    add(&mut cases, mk("zk-on-lookups", true, 2, fri(3, 4, FriReductionStrategy::ConstantArityBits(4, 5), 28, 16)), true, false);
+    add(&mut cases, mk("one-challenge-rate3-cap0-fixed", false, 1, fri(3, 0, FriReductionStrategy::Fixed(vec![1, 2, 1]), 30, 0)), false, false);
+    add(&mut cases, mk("three-challenges-rate5-cap2-minsize", false, 3, fri(5, 2, FriReductionStrategy::MinSize(None), 16, 4)), false, false);
+    add(&mut cases, mk("rate4-cap1-arity1-lookups", false, 2, fri(4, 1, FriReductionStrategy::ConstantArityBits(1, 2), 20, 8)), true, false);
+    add(&mut cases, mk("minsize-max3-cap3", false, 2, fri(3, 3, FriReductionStrategy::MinSize(Some(3)), 28, 0)), false, false);
+    add(&mut cases, mk("keccak-standard", false, 2, fri(3, 4, FriReductionStrategy::ConstantArityBits(4, 5), 28, 16)), false, true);
+    add(&mut cases, mk("keccak-zk-rate4", true, 2, fri(4, 2, FriReductionStrategy::ConstantArityBits(2, 3), 21, 0)), true, true);
+    for (name, cfg, lookups, keccak) in cases {
+        let idp = format!("C01.S.plonk.e2e.{name}");
+        ctx.guarded(&idp.clone(), E2E_FILES, |ctx| {
+            let mut goals = vec![];
+            let mut notes = vec![];
+            for seed in [1u64, 2] {
+                let (proved, verifies, outputs_ok) = if keccak {
+                    run::<KeccakGoldilocksConfig>(cfg.clone(), lookups, seed)
+                } else {
+                    run::<PoseidonGoldilocksConfig>(cfg.clone(), lookups, seed)
+                };
+                notes.push(format!("seed {seed}: proved={proved} verifies={verifies} outputs_ok={outputs_ok}"));
+                goals.push(A::Bool(proved));
+                goals.push(A::Bool(verifies));
+                goals.push(A::Bool(outputs_ok));
+            }
+            ctx.add(
+                Ob::new(idp.clone(), E2E_FILES, format!("one small program (mul, add, exp, div, split/le_sum, random access{}) under configuration {name}: zero_knowledge={}, {} challenges, FRI {:?}, hasher {}; two concrete inputs; native run", if lookups { ", table lookup" } else { "" }, cfg.zero_knowledge, cfg.num_challenges, cfg.fri_config, if keccak { "Keccak" } else { "Poseidon" }))
+                    .sample(format!("real build + prove + verify succeed and the public inputs equal direct evaluation over the field ({})", notes.join("; ")))
+                    .goals(goals)
+                    .key(format!("e2e-config:{name}")),
+            );
+        });
+    }
+}
+
 pub fn family<F: VF>(ctx: &mut Ctx) {
+    e2e_configs(ctx);
     sigma_group::<F>(ctx);
     vanishing_reference::<F>(ctx);
     prover_vs_verifier::<F>(ctx);
